@@ -17,7 +17,7 @@ CLAIMED.update({
  "C01": (MC, "TLC: MC_Chunk (library header-compression policy refines the legal sender; reference receiver delivers exactly) + trace validation of library serializer -> library deserializer runs under several input partitions (Trace_Chunk, intent oracle)",
          "Design level: the library's format/csid policy, transcribed, only ever picks encodings the protocol allows and the reference receiver reassembles them exactly (exhaustive, small constants). Code level: for generated message sequences (boundary tables, all flags, size changes, payloads up to 16,777,215 bytes) the messages returned by every input call must be exactly the intended messages whose last byte that call delivered; every accepted message must yield a non-empty packet.",
          "TLC; harness logger; message sequences are boundary-table driven + seeded random, not enumerated; S1 constants: words mod 4, lengths {0,1,3}, chunk sizes {1,2}, 2 messages (quick)", "5 C01"),
- "C07": (MC, "TLC trace validation: every byte the library serializer returns is parsed by the TLA+ ChunkWire module (RTMP 5.3.1 layout) and run through the reference receiver ChunkProto!Rx; decoded header/payload must equal the intended message",
+ "C07": (MC, "TLC trace validation: every byte the library serializer returns is parsed by the TLA+ ChunkWire module (RTMP 5.3.1 layout; self-checked by MC_Wire) and run through the reference receiver ChunkProto!Rx; decoded header/payload must equal the intended message",
          "The decoder that judges the library's output is written in TLA+ from the protocol document and shares no code or constant with the library, so a symmetric change to serializer and deserializer is rejected. Checks csid minimality, predecessor rule, 24-bit saturation/extended field, payload cut by the announced chunk size, in-band size announcement before use.",
          "TLC; harness logger; ChunkWire/ChunkProto as a faithful reading of RTMP 1.0 section 5.3.1", "5 C07"),
  "C08": (MC, "TLC: MC_Chunk with dropped droppable messages (and a negative control without the rule) + Trace_Chunk exploring ALL 2^k subsets of droppable packets of each recorded serializer run",
@@ -41,10 +41,10 @@ CLAIMED.update({
  "C13": (MC, "TLC trace validation against RtmpMsg.tla (type ids, body layouts, event and limit codes from RTMP 1.0) with AMF0 bodies read by the TLA+ reference decoder; both directions; all 256 type ids",
          "Every recorded conversion is judged by the specification: the type id and body must be the layout the protocol document prescribes and must convert back to an equal message; foreign reference bodies (incl. ids 15/17) must decode to what they denote; unknown ids pass through; chunk sizes above 2^31-1 are rejected in both directions.",
          "RtmpMsg.tla/Amf0.tla as faithful readings of the specifications; TLC; harness logger", "5 C13"),
- "C09": (MC, "TLC: MC_Server explores every history of ServerSession.tla over a small alphabet with history variables restating C09 (no depth bound) + Trace_Server replays logs of the real ServerSession through the same SrvStep function",
+ "C09": (MC, "TLC: MC_Server explores every history of ServerSession.tla over a small alphabet with history variables restating C09 (no depth bound); Gen_Server prints every transition and a transition-covering set of paths is replayed on the real ServerSession (S2); Trace_Server replays these and random histories through the same SrvStep function",
          "Design level: the request/stream state machine satisfies every clause of the property in all histories (20k-890k distinct states). Code level: random histories over every message class and application call incl. stale/never-issued ids on the real session; every call's events, responses and (for refusals) state are judged by the model; fresh ids may be any unused value.",
          "TLC; probe hook; message-level logs trust the library codec for decoding returned packets (C18 re-checks bytes)", "5 C09"),
- "C10": (MC, "TLC: MC_Client (every history, observation-driven history state) + Trace_Client replays logs of the real ClientSession through CliStep",
+ "C10": (MC, "TLC: MC_Client (every history, observation-driven history state); Gen_Client transition cover replayed on the real ClientSession (S2); Trace_Client replays these and random histories through CliStep",
          "Same construction as C09 for the client workflow: permitted states per request, transaction bookkeeping, status dispatch, media gating, stop, ping echo.",
          "TLC; probe hook; library codec for decoding returned packets", "5 C10"),
  "C17": (MC, "Apalache: inductive invariant of AckFlat for all windows 1..2^32-1 and all call sizes; TLC: small windows exhaustively; Trace_Server/Trace_Client judge every input call of both real sessions with AckStep",
@@ -62,7 +62,7 @@ CLAIMED.update({
  "C11": (EX, "Trace_Handshake digest rules in TLA+ (offset functions, role->key table, signature vs echo) evaluated by TLC over facts about an uninterpreted HMAC-SHA256 supplied by an independent harness implementation; all 728 received offsets x 2 schemes x 2 roles enumerated, own offsets through the deterministic fill hook",
          "Exploration level, exhaustive over the received-offset space; own offsets are sampled (count of distinct positions seen is in the evidence).",
          "harness HMAC-SHA256 (FIPS 180-4/RFC 2104, self-checked against RFC 4231); fill hook; TLC", "5 C11"),
- "C20": (MC, "Apalache: clock laws for ALL (a,d) in u32 x u32 on a transcription of time.rs (ClockFlat); TLC: limb arithmetic refinement (MC_Clock); Trace_Clock recomputes every operator result of the real RtmpTimestamp on boundary and random pairs",
+ "C20": (MC, "Apalache: clock laws for ALL (a,d) in u32 x u32 on a transcription of time.rs (ClockFlat) and correctness of the limb arithmetic U32 for Base = 65536 (U32Apa, with a refuted negative control); TLC: limb refinement exhaustively for Base = 16 (MC_Clock); Trace_Clock recomputes every operator result of the real RtmpTimestamp on boundary and random pairs",
          "Symbolic proof over the full 2^64 input space for the transcription; the transcription is bound to the code by trace validation on the boundary product (distances 2^31-2 .. 2^31+2, wraps) through all operators incl. u32 on either side.",
          "ClockFlat transcription; Apalache/Z3; TLC", "5 C20"),
  "C03": (EX, "Trace_Resource: call/return alphabet without panic/death/timeout actions + allocation/time envelope as invariants, over a state x malformed-class product executed in supervised child processes",
@@ -115,7 +115,7 @@ def main():
             "guard": "cargo feature `verif` of rml_rtmp (off by default)",
             "enable": "the harness crate /verif/harness depends on /repo/rtmp by path with features=[\"verif\"]; it has its own [workspace], so `cargo test --workspace` in /repo never sees the feature",
             "baseline_off_cmd": "cd /repo && cargo test --workspace --no-fail-fast --offline",
-            "source_commits": [],
+            "source_commits": ["463abf0", "ce8c513"],
             "add_only": True,
         },
         "engines": [
@@ -124,7 +124,7 @@ def main():
         ],
         "checks": checks,
         "not_applicable": na,
-        "notes": "See DESIGN.md. ./check <ID> <quick|thorough> rebuilds the harness from /repo's working tree on every run.",
+        "notes": "See DESIGN.md (section 0 = as built). ./check <ID> <quick|thorough> rebuilds the harness from /repo's working tree on every run; exit 2 = tool error (never a verdict about the code). Repairs of genuine defects are the unguarded `fix:` commits in /repo listed in KNOWN_FINDINGS.json (status fixed); K1/K1b are known findings.",
     }
     with open(os.path.join(VERIF, "MANIFEST.json"), "w") as f:
         json.dump(m, f, indent=1)
